@@ -1,6 +1,7 @@
 package sim
 
 import (
+	"sort"
 	"crypto/sha256"
 	"encoding/binary"
 	"encoding/json"
@@ -290,6 +291,52 @@ func hasHidden(m J) []string {
 	return out
 }
 
+// asAliases: the prefixes a document's @context binds to the ActivityStreams namespace, in either direction
+// ({namespace: alias} as the decoder reads it, {alias: namespace} as the encoder writes it).
+func asAliases(ctx interface{}) []string {
+	var out []string
+	for _, c := range aslist(ctx) {
+		if cm, ok := c.(map[string]interface{}); ok {
+			for k, v := range cm {
+				vs, _ := v.(string)
+				if k == asCtx && vs != "" {
+					out = append(out, vs)
+				} else if vs == asCtx {
+					out = append(out, k)
+				}
+			}
+		}
+	}
+	sort.Strings(out)
+	return out
+}
+
+// prefixedHidden: bto/bcc spelled with a vocabulary prefix (as:bto). Under that @context it is the very same member.
+func prefixedHidden(m J, aliases []string, objKey bool) []string {
+	var out []string
+	for _, a := range aliases {
+		for _, k := range []string{"bto", "bcc"} {
+			if _, ok := m[a+":"+k]; ok {
+				out = append(out, a+":"+k)
+			}
+		}
+	}
+	if objKey {
+		keys := []string{"object"}
+		for _, a := range aliases {
+			keys = append(keys, a+":object")
+		}
+		for _, ok := range keys {
+			for _, o := range aslist(m[ok]) {
+				if om, isM := o.(map[string]interface{}); isM {
+					out = append(out, prefixedHidden(om, aliases, true)...)
+				}
+			}
+		}
+	}
+	return out
+}
+
 // monWire checks every payload handed to a transport (C03).
 func (s *Sim) monWire(t *Task, tp *SimTransport, wm *WireMsg) {
 	isOutbox := false
@@ -308,6 +355,11 @@ func (s *Sim) monWire(t *Task, tp *SimTransport, wm *WireMsg) {
 	}
 	if h := hasHidden(m); len(h) > 0 {
 		s.violate("C03", "hidden-on-activity", "wire:"+strings.Join(h, "+"), fmt.Sprintf("payload of %s carries %v: %s", t.ID, h, trunc(wm.Payload, 200)))
+	}
+	if al := asAliases(m["@context"]); len(al) > 0 {
+		if h := prefixedHidden(m, al, true); len(h) > 0 {
+			s.violate("C03", "prefixed-hidden-member", "wire", fmt.Sprintf("payload of %s carries %v, which under its @context are bto/bcc: %s", t.ID, h, trunc(wm.Payload, 300)))
+		}
 	}
 	for _, o := range aslist(m["object"]) {
 		if om, ok := o.(map[string]interface{}); ok {
@@ -374,6 +426,11 @@ func (s *Sim) monEnd(t *Task) {
 		if m, err := parseJ(rec.Body.Bytes()); err == nil {
 			if d, h := hiddenAtObjectDepth(m, 0); h != nil {
 				s.violate("C03", "hidden-served", fmt.Sprintf("handler:depth%d", min(d, 1)), fmt.Sprintf("GET %s served %v at object depth %d", t.Req.Path, h, d))
+			}
+			if al := asAliases(m["@context"]); len(al) > 0 {
+				if h := prefixedHidden(m, al, true); len(h) > 0 {
+					s.violate("C03", "prefixed-hidden-member", "handler", fmt.Sprintf("GET %s served %v, which under its @context are bto/bcc", t.Req.Path, h))
+				}
 			}
 		}
 	}
